@@ -537,3 +537,40 @@ pub fn maybe_replay_many<C: serde::de::DeserializeOwned + Serialize>(prop: &str,
     println!("REPLAY-MANY property={prop} cases={} failed={bad}", cases.len());
     std::process::exit(if bad == 0 { 0 } else { 1 });
 }
+
+/// glue for the libFuzzer targets: a panic hook that tolerates the harness' own injected panics, and a failure sink
+pub mod fuzzglue {
+    use super::*;
+    static INIT: std::sync::Once = std::sync::Once::new();
+
+    /// libfuzzer-sys installs a hook that aborts on *any* panic; the executors inject panics on purpose.
+    pub fn init() {
+        INIT.call_once(|| {
+            let prev = panic::take_hook();
+            panic::set_hook(Box::new(move |info| {
+                if info.payload().is::<Injected>() || QUIET.with(|q| q.get()) > 0 {
+                    return;
+                }
+                prev(info);
+            }));
+        });
+    }
+
+    /// journal mode (crash triage): write the decoded case before executing it
+    pub fn journal<C: Serialize>(case: &C) {
+        if let Ok(p) = std::env::var("FUZZ_JOURNAL") {
+            let _ = std::fs::write(p, serde_json::to_vec(case).unwrap_or_default());
+        }
+    }
+
+    /// a semantic failure found by the in-target oracle: persist the case, then die so that libFuzzer keeps the input
+    pub fn fail<C: Serialize>(prop: &str, case: &C, msg: &str) -> ! {
+        let dir = verif_root().join("replays").join(prop);
+        let _ = std::fs::create_dir_all(&dir);
+        let body = json!({"property": prop, "case": case, "message": format!("found by libFuzzer: {msg}")});
+        let name = format!("fuzz_{:016x}.json", hash_of(&serde_json::to_string(case).unwrap_or_default()));
+        let _ = std::fs::write(dir.join(name), serde_json::to_string_pretty(&body).unwrap());
+        eprintln!("FUZZ-FAIL property={prop} msg={msg}");
+        std::process::abort();
+    }
+}
